@@ -35,6 +35,7 @@ PROPS = {
             "heap": (None, ALL),
             "handlers": (None, ALL),
             "coldpath": (None, ALL),
+            "select": (None, ALL),
             "equality": [(["Executor::handle_equal"], ALL), (None, ("safety",))],
             "transfer": (None, ("safety",)),
             "builtins_binary": (None, ("safety",)),
@@ -49,6 +50,7 @@ PROPS = {
             "heap": (None, ALL),
             "handlers": (None, ALL),
             "coldpath": (None, ALL),
+            "select": (None, ALL),
             "equality": (["Executor::handle_equal"], ALL),
             "transfer": (None, ALL),
         },
